@@ -4,6 +4,9 @@
 // db/postgres: transaction typestate only. A transaction handle is live from a
 // successful BeginTx until its Commit or Rollback (either ends it, also when it
 // reports an error); the ghost counter `txOpen` counts live transactions.
+// The ghost counter `fault` counts the begin / statement / row-fetch / commit
+// calls that reported an error (a failing Rollback is not counted: the operation
+// that rolls back is already reporting its own error).
 // Every driver call may fail: nothing below says that an error cannot happen,
 // so every placement of a fault is covered by the callers' proofs (C13).
 
@@ -13,7 +16,8 @@ package stubs
 
 //@ iface (db/postgres.PgInterface).BeginTx
 //@   params conn, ctx, opts
-//@   modifies count(txOpen), txLive[ALL]
+//@   modifies count(txOpen), txLive[ALL], count(fault)
+//@   ensures count(fault) == old(count(fault)) + ite(result1 != nil, 1, 0)
 //@   ensures result1 == nil ==> result0 != nil && !old(txLive(refOf(result0))) && txLive(refOf(result0)) && count(txOpen) == old(count(txOpen)) + 1
 //@     && all[int](t, t != refOf(result0) ==> txLive(t) == old(txLive(t)))
 //@   ensures result1 != nil ==> count(txOpen) == old(count(txOpen)) && all[int](t, txLive(t) == old(txLive(t)))
@@ -25,7 +29,10 @@ package stubs
 //@ iface (github.com/jackc/pgx/v5.Tx).Commit
 //@   params tx, ctx
 //@   requires @live txLive(refOf(tx))
-//@   modifies count(txOpen), txLive[refOf(tx)]
+//@   modifies count(txOpen), txLive[refOf(tx)], count(fault)
+//@   ensures count(fault) == old(count(fault)) + ite(result != nil, 1, 0)
+// the driver's errors are its own: never the library's "no transaction" sentinel
+//@   ensures result != db.ErrNoTx
 //@   ensures !txLive(refOf(tx)) && count(txOpen) == old(count(txOpen)) - 1
 
 //@ iface (github.com/jackc/pgx/v5.Tx).Rollback
@@ -38,15 +45,21 @@ package stubs
 //@ iface (github.com/jackc/pgx/v5.Tx).Exec
 //@   params tx, ctx, sql, arguments
 //@   requires @live txLive(refOf(tx))
+//@   modifies count(fault)
+//@   ensures count(fault) == old(count(fault)) + ite(result1 != nil, 1, 0)
 
 //@ iface (github.com/jackc/pgx/v5.Tx).Query
 //@   params tx, ctx, sql, args
 //@   requires @live txLive(refOf(tx))
+//@   modifies count(fault)
+//@   ensures count(fault) == old(count(fault)) + ite(result1 != nil, 1, 0)
 //@   ensures result1 == nil ==> result0 != nil
 
 //@ iface (github.com/jackc/pgx/v5.Rows).Next
 //@   params rows
 //@ iface (github.com/jackc/pgx/v5.Rows).Scan
 //@   params rows, dest
+//@   modifies count(fault)
+//@   ensures count(fault) == old(count(fault)) + ite(result != nil, 1, 0)
 //@ iface (github.com/jackc/pgx/v5.Rows).Close
 //@   params rows
